@@ -8,6 +8,8 @@ OK, UNDECIDABLE, REJECTED, ABORT, MISMATCH, RANGE, THREAD, COMPILER_CRASH = (
     'ok', 'undecidable', 'rejected', 'abort', 'mismatch', 'range', 'thread',
     'compiler-crash')
 NONTERM = 'nontermination'
+IMAGE = 'image-invariant'
+VMFAULT = 'vm-automaton'
 
 
 class Outcome:
@@ -25,12 +27,14 @@ def setup(pop_descs, **kw):
     env.configure(simnet.make_devices(pop_descs), **kw)
 
 
-def judge(prog, pop_descs, decisions, run):
+def judge(prog, pop_descs, decisions, run, hoist=False):
     """Run the reference interpreter over the recorded log of `run`."""
     if run.compile_exc is not None:
         return Outcome(COMPILER_CRASH, repr(run.compile_exc), run=run)
     if not run.accepted:
         return Outcome(REJECTED, run.errors.strip(), run=run)
+    if run.image_faults:
+        return Outcome(IMAGE, '; '.join(run.image_faults[:3]), run=run)
     if run.budget_exhausted:
         return Outcome(NONTERM, 'instruction budget exhausted: the script '
                        'did not terminate', run=run)
@@ -38,7 +42,7 @@ def judge(prog, pop_descs, decisions, run):
     ref = None
     try:
         ref = refmodel.check(prog, refmodel.Population(pop_descs), decisions,
-                             actual, spec_table=spec_table)
+                             actual, spec_table=spec_table, hoist=hoist)
     except refmodel.Undecidable as ex:
         return Outcome(UNDECIDABLE, str(ex), {}, run, len(actual))
     except refmodel.Mismatch as ex:
@@ -56,19 +60,26 @@ def judge(prog, pop_descs, decisions, run):
             ref.stats, run, len(actual))
     if run.range:
         return Outcome(RANGE, repr(run.range[:3]), ref.stats, run, len(actual))
+    if run.mon is not None and run.mon.faults:
+        return Outcome(VMFAULT, '; '.join(run.mon.faults[:3]), ref.stats, run,
+                       len(actual))
+    if run.fp_changed:
+        return Outcome(VMFAULT, 'execution changed the compiled program',
+                       ref.stats, run, len(actual))
     if run.thread_exc:
         return Outcome(THREAD, repr(run.thread_exc[:2]), ref.stats, run,
                        len(actual))
     return Outcome(OK, '', ref.stats, run, len(actual))
 
 
-def execute(prog, pop_descs, decisions, text=None, configure=True, **kw):
+def execute(prog, pop_descs, decisions, text=None, configure=True,
+            monitor=False, hoist=False, **kw):
     if configure:
         setup(pop_descs, **kw)
     if text is None:
         text = render.canonical(render.tokens(prog))
-    run = run_script(text, decisions)
-    out = judge(prog, pop_descs, decisions, run)
+    run = run_script(text, decisions, monitor=monitor)
+    out = judge(prog, pop_descs, decisions, run, hoist=hoist)
     out.text = text
     return out
 
@@ -84,4 +95,7 @@ def classify(outcome):
         return 'mismatch:' + kind
     if outcome.verdict == ABORT:
         return 'abort:' + d.split(' ')[2]
+    if outcome.verdict in (IMAGE, VMFAULT):
+        import re
+        return outcome.verdict + ':' + re.sub(r'[0-9#]+', 'N', d)[:60]
     return outcome.verdict
